@@ -62,11 +62,51 @@ CLAIMED = {
     note=TB + 'The object store is a model of aliasing (which containers are shared / copied); python hash() itself is abstracted to a function of repr.',
     technique='Coq proof (heap invariant by induction over operations) + mutation/identity probes on the implementation',
     design='6 C14'),
+ 'C05': dict(
+    text='Theorems: if the path resolver gives back type and fields of the formatted path (unambiguous templates: explicit hypothesis), Sid(path=sid.path(c), config=c) is the Sid; one path never yields two Sids; untyped Sids and types without path template have path None; pathlib normalisation is idempotent; the "." / "" value collision (D26) is proved as an example. Differential run + oracle over every concrete Sid of every type in every path configuration (round trip, function, injectivity over the generated set, root-only difference, positional / keyword).',
+    note=TB + 'PARTIAL: unambiguity of the configured path templates (W9 of DESIGN.md) is a hypothesis of the round-trip theorem; it is exercised on the implementation for every generated Sid, not proved. Both load orders are compared by the configuration translator on every run.',
+    technique='Coq proof (conditional round trip, injectivity, normal forms) + correspondence + oracle',
+    design='6 C05'),
+ 'C06': dict(
+    text='Theorems: whenever Sid(path=p, config=c) is typed its path(c) is p (normalised); otherwise it is the empty Sid; for every path string and configured configuration the call returns a Sid or ResolvaException, and the exception can only arise in the reverse check of the re-formatted path (excluded under an explicit unambiguity hypothesis). Differential run + oracle over systematically mutated paths (desynchronised duplicates, every literal character, dropped / duplicated components, trailing parts, swapped roots, newline).',
+    note=TB + 'PARTIAL: "never raises" is proved up to ResolvaException from the reverse check, which needs ambiguous templates to occur; not observed on any generated configuration.',
+    technique='Coq proof + correspondence + mutation stream oracle',
+    design='6 C06'),
+ 'C11': dict(
+    text='Theorems over the generic finder model: every finder is the same find / do_find / sorted_search over its own star search, so answers depend on the finder only through its candidates (for ">" only through the candidate set); the generic finder over a list is the list finder; junk that resolves to no Sid changes no path-search result and makes none fail; every path-search result resolves from an existing matching path, has the searched type and matches the search. Tie: real temporary trees (local + server + list + FindInAll), with and without junk, compared with each other (oracle) and with the file-system model (glob, FindInPaths, FindInConstants, FindInAll).',
+    note=TB + 'PARTIAL: "tree search = list search over the same entities" is oracle + correspondence, not a theorem. scandir order, symlinks, permissions, case-insensitive file systems are not modelled.',
+    technique='Coq proof (congruence, junk invariance, soundness of path search) + finder-agreement oracle on real trees + correspondence',
+    design='6 C11'),
+ 'C15': dict(
+    text='Theorems over the file-system / writer / getter model: create of an existing entity and update of a missing one (or of a Sid without path) raise SpilException (no new state); a read after a write is the overlay of previous data and written values; a write touches only the sidecar of the written entity, so reads of entities with another sidecar are unchanged; paths differing only by the extension share a sidecar. Tie: all histories of <= 2 (thorough 3) operations over a reduced alphabet + random histories, each from an empty real tree, with tree-to-model comparison after every history and a direct oracle (overlay, exists after create of self or descendant).',
+    note=TB + 'Existence through searches relies on the finder model (C11). A new process is not separately started per read (the writer and getter hold no state; sampled by the C13 fresh-process mechanism).',
+    technique='Coq proof + exhaustive short histories / random histories against a real tree',
+    design='6 C15'),
+ 'C16': dict(
+    text='Theorems: GetFromPaths.get is the map of get_data over the Sids its finder finds (same length, same order); with attributes the record has exactly those keys; the "sid" key carries the encoder result and is untouched when the encoder returns None; types without Getter yield nothing without failing. Tie: get vs find vs get_data in one implementation process (order), model correspondence as multisets, three encoders, attribute subsets.',
+    note=TB + 'GetFromAll builds a new Getter per typed search in the demo configuration (records are concatenated per typed search); modelled as such.',
+    technique='Coq proof + correspondence + get/find oracle',
+    design='6 C16'),
+ 'C17': dict(
+    text='Theorem: for the write as repaired (temporary sibling written in any number of chunks, then os.replace) and EVERY crash point (prefix of the effect list), the sidecar holds the complete old or the complete new data and no other path but the temporary file changes; the in-place write of the pinned tree is refuted as a theorem; corrupt / empty / directory sidecars read as no data. Tie: the harness intercepts pathlib.write_text / os.replace in the implementation, injects the crash at each point (every byte boundary in thorough), compares the real tree with the model tree, reads back, and sets again.',
+    note=TB + 'Durability (fsync) and kernel atomicity of rename are assumptions; the crash is simulated from the harness (no source hook).',
+    technique='Coq proof by case analysis over crash prefixes + fault injection on the implementation',
+    design='6 C17'),
+ 'C18': dict(
+    text='Theorems about the model of NextGetter / get_next: the successor of v+ddd is requested as v+(n+1) in 3 digits through get_with on the same Sid; first version v001; formatted versions parse back, are distinct and ordered like numbers; 4-digit numbers are not versions (empty Sid). Tie: generated trees with empty / dense / sparse / maximal version sets, every Sid level, "*" / ">" versions, create(get_new) chains; oracle from the property text + model correspondence of get_last / get_next / get_new through FindInAll.',
+    note=TB + 'PARTIAL: get_last / get_new over a tree are correspondence + oracle (they go through the finders); NextGetter is demo plug-in code with "version" / "v" / 3 digits built in.',
+    technique='Coq proof (version arithmetic, next_version) + correspondence + oracle on version workflows',
+    design='6 C18'),
  'C19': dict(
     text='General theorems (Coq, no bound on number of types / keys / levels) about a line-by-line Gallina model of extrapolate_templates and pattern_replacing: explicit types kept in order, no duplicate names or templates, every added entry is a well-named prefix level of an extrapolated type, nothing else, every level covered; tied to spil/conf/util.py by differential runs of the extracted model against the implementation on grammar-generated configurations and on the live configuration.',
     note=TB + 'Placement (directly after, longest first) is checked by the oracle and correspondence, not yet a theorem.',
     technique='Coq proof by fold invariant over the template list + correspondence (extracted model vs impl)',
     design='6 C19'),
+ 'C20': dict(
+    text='C20_all: every general theorem of C01-C08 is stated for ALL configurations that load and satisfy the decidable well-formedness predicate (no mention of demo names; a grep obligation enforces that the model contains no demo literal). Instance side on every run: members of a generated configuration family (renamed keys / basetypes / codes / leaf key, inserted level, other separators / folders / vocabularies / digit patterns, third basetype, third path configuration) are translated, proved to parse / load exactly as the implementation loaded them / be well-formed, and the C01-C08 streams run against a fresh implementation process per member.',
+    note=TB + 'quick: 3 members; thorough: 40. The family generator (tools/confgen.py) is trusted to produce configurations of the documented shape.',
+    technique='Coq proof over all well-formed configurations + per-member instance obligations + correspondence per member',
+    design='6 C20'),
 }
 
 NOT_APPLICABLE = {}
